@@ -450,12 +450,37 @@ PreviousBucket(Bucket **current, Bucket *first)
     return result;
 }
 
+#ifdef BTREES_VERIF
+/* Verification hook (compiled in only with -DBTREES_VERIF): an
+ * allocation-failure countdown consulted by BTree_Malloc / BTree_Realloc.
+ * 0 means disarmed; n > 0 makes the n-th wrapped allocation from now fail.
+ */
+static long _verif_alloc_countdown = 0;
+static long _verif_alloc_calls = 0;
+
+static int
+_verif_alloc_should_fail(void)
+{
+    ++_verif_alloc_calls;
+    if (_verif_alloc_countdown > 0 && --_verif_alloc_countdown == 0)
+        return 1;
+    return 0;
+}
+#endif
+
 static void *
 BTree_Malloc(size_t sz)
 {
     void *r;
 
     ASSERT(sz > 0, "non-positive size malloc", NULL);
+#ifdef BTREES_VERIF
+    if (_verif_alloc_should_fail())
+    {
+        PyErr_NoMemory();
+        return NULL;
+    }
+#endif
 
     r = malloc(sz);
     if (r)
@@ -471,6 +496,13 @@ BTree_Realloc(void *p, size_t sz)
     void *r;
 
     ASSERT(sz > 0, "non-positive size realloc", NULL);
+#ifdef BTREES_VERIF
+    if (_verif_alloc_should_fail())
+    {
+        PyErr_NoMemory();
+        return NULL;
+    }
+#endif
 
     if (p)
         r = realloc(p, sz);
@@ -515,7 +547,28 @@ BTree_ShouldSuppressKeyError()
 #include "SetOpTemplate.c"
 #include "MergeTemplate.c"
 
+#ifdef BTREES_VERIF
+/* _verif_fail_alloc(n): arm the countdown (0 disarms); returns the number of
+ * wrapped allocations performed since the previous call. */
+static PyObject *
+_verif_fail_alloc_m(PyObject *ignored, PyObject *args)
+{
+    long n = 0, calls;
+    if (!PyArg_ParseTuple(args, "|l", &n))
+        return NULL;
+    calls = _verif_alloc_calls;
+    _verif_alloc_calls = 0;
+    _verif_alloc_countdown = n;
+    return PyLong_FromLong(calls);
+}
+#endif
+
 static struct PyMethodDef module_methods[] = {
+#ifdef BTREES_VERIF
+  {"_verif_fail_alloc", (PyCFunction) _verif_fail_alloc_m, METH_VARARGS,
+   "_verif_fail_alloc(n=0)\nverification hook: fail the n-th allocation from now"
+  },
+#endif
   {"difference", (PyCFunction) difference_m,    METH_VARARGS,
    "difference(o1, o2)\n"
    "compute the difference between o1 and o2"
